@@ -203,6 +203,20 @@ theorem gate_blocks (fs0 : FS) (opens : List OpenReq) (counter : List C08.Entry)
   intro q hq
   exact deferred_untouched (init fs0) opens q hq
 
+/-- The same for the exit status the operating system sees (the exit code truncated to a byte): with leftover
+warnings the status is 2, in particular non-zero, whatever the number of warnings. -/
+theorem gate_blocks_status (fs0 : FS) (opens : List OpenReq) (counter : List C08.Entry)
+    (specs : List (List C08.Spec)) (level : Nat) (h : C08.leftover counter specs level ≠ 0) :
+    exitStatus (cliRun fs0 opens counter specs level).2 = 2
+    ∧ exitStatus (cliRun fs0 opens counter specs level).2 ≠ 0 := by
+  rw [(gate_blocks fs0 opens counter specs level h).1]
+  decide
+
+/-- Why the constant matters: a gate that exits with the leftover count itself would report status 0 for
+exactly 256 (512, …) leftover warnings. -/
+theorem exit_with_count_wraps : exitStatus 256 = 0 ∧ exitStatus 512 = 0 ∧ exitStatus 2 = 2 ∧ exitStatus 255 = 255 := by
+  decide
+
 /-- Leftover warnings = 0: exit code 0 and the run is finalised completely. -/
 theorem gate_passes (fs0 : FS) (opens : List OpenReq) (counter : List C08.Entry) (specs : List (List C08.Spec))
     (level : Nat) (h : C08.leftover counter specs level = 0) :
